@@ -50,6 +50,11 @@ func runC13(c *Ctx) {
 	// shared with C17: every Offset/Extent lies inside the unknown string - the byte range of a candidate ends with the
 	// last token of the range, not with the token behind it (R17.4)
 	borrowRules(c, []string{"R17.4", "R17.1"}, runC17)
+	// shared with C14: a verbatim copy is reported only if the search does not crash - the known values are read under the lock
+	// (R14.1) and a value is complete when it becomes visible (R14.6)
+	if c.R.Filter == nil {
+		borrowRules(c, []string{"R14.1", "R14.6"}, runC14)
+	}
 	// shared with C14: NearestMatch/MultipleMatch keep no result or scratch state between calls (R14.5)
 	checkV1SharedWrites(c, p)
 	total, _ := checkMustCompile(c, p, "R13.1", core.RootMod)
